@@ -116,7 +116,7 @@ CLAIMED.update({
    text="Deductive proof that CreateSubscription.Execute / CreateTopic.Execute store exactly the configuration given; that UpdateSubscription / UpdateTopic change exactly the columns named by the update mask on exactly the named live row (loop over mask paths with per-column invariants on the "
         "symbolic update builder) and that a listed path is applied even when it only clears optional configuration; that entTopicToGrpc returns the stored name and labels; and for the duration codec: Interval.Value stores exactly Go's duration text and Interval.Scan of that text gives back "
         "the same duration (String/ParseDuration assumed inverse), rejects text that is neither format, and keeps the old value on failure.",
-   note="The subscription mapper's full field map and the PostgreSQL-text branch of the interval parser (known defects on negative / overflowing text, not repaired, outside the claim) are not under contract. "+TRUST,
+   note="Also proved with overflow checks on: adjustDuration adds value x scale exactly or fails (this refuted the pinned code on intervals beyond 292 years; replayed, fixed). Not under contract: the subscription mapper's full field map; PostgreSQL's reading of *negative* interval text (known, not repaired: the sign of the hours field is not applied to minutes and seconds; mmmbbb never stores negative intervals). "+TRUST,
    design="4/C17"),
 })
 CLAIMED["C19"] = dict(
